@@ -30,7 +30,7 @@ RULE = ('seeded (instant, TZ rule, clock mode) environments x short edit histori
         'and >= 10 timestamps decoded; distinct = (TZ rule, hour bucket of the instant, configuration)')
 BUDGET = {'quick': 40, 'thorough': 900}
 PROBES = ['timestamps_checked', 'dr_dates', 'vd_dates', 'rr_tf_stamps', 'udf_timestamps', 'dst_in_effect', 'negative_offset', 'quarter_hour_zone',
-          'half_hour_zone', 'year_boundary_crossed_by_offset', 'after_2038', 'jitter_mode', 'clock_stepped_back', 'remaster_identity_checked', 'expiration_date_given', 'zone_changed_between_edits']
+          'half_hour_zone', 'year_boundary_crossed_by_offset', 'after_2038', 'jitter_mode', 'clock_stepped_back', 'remaster_identity_checked', 'expiration_date_given', 'zone_changed_between_edits', 'remaster_with_foreign_hundredths']
 ASSUMPTIONS = ['every TZ rule in the catalogue has offsets that are multiples of 15 minutes (the resolution of the ECMA-119 fields)',
                'an instant is compared to the second (the floor of the simulated reading)']
 
@@ -261,6 +261,15 @@ class C19(H.Oracle):
         old_tz, old_now = w.tz, w.clock.now
         w.set_tz(rr_.choice(W.TZ_CATALOGUE))
         w.clock.now = float(W.World.pick_instant(rr_))
+        if rr_.random() < 0.5:
+            # what another writer may have recorded: hundredths of a second other than 00 in the 17-byte dates (the library
+            # itself always writes 00); parse then record must give them back
+            ba = bytearray(data)
+            for off, ln, kind in fields:
+                if ln == 17 and kind.startswith('vd-') and ba[off:off + 4] != b'0000':
+                    ba[off + 14:off + 16] = ('%02d' % rr_.choice((1, 5, 7, 9, 10, 42, 70, 99))).encode()
+            data = bytes(ba)
+            ctx.probes['remaster_with_foreign_hundredths'] += 1
         try:
             iso2 = ctx.d.pm.PyCdlib()
             iso2.open_fp(SimFile(SimDisk('c19in', data), 'rb'))
